@@ -17,10 +17,12 @@ theorem sendFromModule_spec {s s1 : St} {q q1 : Seq} {amt : Nat} {to : Addr}
   · cases e
   · split at e
     · cases e
-    · injection e with e; injection e with e1 e2; subst e1; subst e2
-      refine ⟨rfl, ?_, ?_, rfl⟩
-      · show s.modBal - amt + amt = s.modBal; omega
-      · show q.tokens - amt + amt = q.tokens; omega
+    · split at e
+      · cases e
+      · injection e with e; injection e with e1 e2; subst e1; subst e2
+        refine ⟨rfl, ?_, ?_, rfl⟩
+        · show s.modBal - amt + amt = s.modBal; omega
+        · show q.tokens - amt + amt = q.tokens; omega
 
 theorem burn_spec {s s1 : St} {q q1 : Seq} {amt : Nat} (e : burn s q amt = .ok (s1, q1)) :
     s1.seqs = s.seqs ∧ s1.modBal + amt = s.modBal ∧ q1.tokens + amt = q.tokens ∧ q1.addr = q.addr := by
